@@ -77,6 +77,9 @@ def sub_accessor(case, rec=None):
     da = xr.DataArray(cube, dims=("y", "x", "time"),
                       coords={"time": pd.date_range("2010-01-01", periods=nt, freq="10D"), "y": np.arange(ny), "x": np.arange(nx) * 2},
                       name=case.get("name"))
+    if case.get("attr_nodata") is not None:
+        # the array may carry a nodata attribute of its own: the nodata ARGUMENT is what whits() is documented to use
+        da.attrs["nodata"] = case["attr_nodata"]
     da = da.transpose(*case["dims"])
     p = case.get("p")
     kw = {} if p is None else {"p": p}
@@ -155,6 +158,8 @@ def accessor_case(draw):
         case["sg_transposed"] = draw(st.booleans())
     if draw(st.booleans()):
         case["p"] = draw(gens.pvals)
+    if draw(st.booleans()):
+        case["attr_nodata"] = draw(st.sampled_from([-9999, 255, 0, allv[0] if allv else 7]))
     cells = [(k, t) for k in range(ny * nx) for t in range(nt) if val[k][t]]
     if dtype != "int16" and cells and draw(st.integers(0, 3)) == 0:
         pick = draw(st.lists(st.sampled_from(cells), min_size=1, max_size=min(3, len(cells)), unique=True))
@@ -186,7 +191,7 @@ def run(ctx):
             rec.discard("accessor", why)
         rec.case("accessor", case, nontrivial=True,
                  cls=["mode:" + case["mode"], "dtype:" + case["dtype"], "dims:" + "/".join(case["dims"]),
-                      "p" if "p" in case else "nop"] + (["near_nodata_valid_cell"] if case.get("near") else []) + (["sg:-inf"] if case["mode"] == "sg" and "-Infinity" in [str(v) for v in case["sg"]] else []))
+                      "p" if "p" in case else "nop"] + (["near_nodata_valid_cell"] if case.get("near") else []) + (["attr_nodata"] if case.get("attr_nodata") is not None else []) + (["sg:-inf"] if case["mode"] == "sg" and "-Infinity" in [str(v) for v in case["sg"]] else []))
 
     ctx.given("accessor", accessor_case(), ctx.n(250, 3000), fn=f_acc)
 
